@@ -169,6 +169,7 @@ def check_stream_law(ctx, data, sc, bs, scratch):
     recs = {r["name"]: r for r in fasta_ref.parse(data)}
     fi = FastaIndex(p, bs)
     fi.auto_load()
+    edited_bad = None
     try:
         s_obj = build_scaffold(sc)
         o1 = io.BytesIO()
@@ -176,6 +177,17 @@ def check_stream_law(ctx, data, sc, bs, scratch):
         o2 = io.BytesIO()
         rev = s_obj.reverse()
         FastaStream(o2, fi).write_scaffold(rev)
+        # a reversed scaffold is a scaffold like any other: extend it, reverse it again -> the mirrored rows of
+        # what it holds NOW (not a remembered original)
+        edited = s_obj.reverse()
+        extra = build_scaffold(sc)
+        edited.append_scaffold(extra)
+        back = edited.reverse()
+        want_rows = plain_reverse(plain_reverse(sc[1]) + sc[1])
+        got_rows = [dump_row(r) for r in back.rows]
+        ctx.count("direct:reverse-of-edited-reversed-scaffold")
+        if [r[:5] if r[0] == "F" else r for r in got_rows] != [r[:5] if r[0] == "F" else r for r in want_rows]:
+            edited_bad = (got_rows, want_rows)
         # the chunk iterator a row is streamed from, used the other ways an iterator may be used: all chunks
         # fetched before any is read, and two iterators advanced in step (two outputs written side by side)
         held_bad = None
@@ -201,6 +213,9 @@ def check_stream_law(ctx, data, sc, bs, scratch):
     body2 = b"".join(o2.getvalue().split(b"\n")[1:])
     known = all(r[0] == "G" or r[4] != 0 for r in sc[1])
     ctx.nontrivial([case["data"], sc, bs])
+    if edited_bad:
+        ctx.violation("reverse-of-edited-reversed-scaffold", f"scaffold {sc}: got {edited_bad[0][:6]} expected {edited_bad[1][:6]}", case)
+        return
     if held_bad:
         sig, r, g_, w_ = held_bad
         ctx.violation(f"row-sequence:{sig}", f"row {r} buffer={bs}\n got {g_[:120]!r}\nwant {w_[:120]!r}", case)
@@ -277,6 +292,7 @@ def gates(c, tier):
         "random-bytes": 1000,
         "streamlaw:known-strands": 1500,
         "streamlaw:with-unknown-strand": 200,
+        "direct:reverse-of-edited-reversed-scaffold": 1500,
         "streamlaw:chunks-held-and-zipped:several-chunks": 500,
         "direct:reverse-calls": 2000,
         "insitu:reverse-calls": 200,
